@@ -468,7 +468,8 @@ def gen_log(tier, seed):
     for o in ({"cal": "fast"}, {"neigh": 1}, {"sel": "type"}, {"mode": "x"}, {"neigh": 2, "sel": "vary"}):
         yield from roots(S, 3, 2, 3, "pp", "tri", o, calls)
     if tier == "thorough":
-        yield from roots(S, 3, 2, 4, "pp", "tri", {"neigh": 1}, calls)
+        yield from roots(S, 3, 2, 5, "joint", "tri", {"neigh": 1}, calls)
+        yield from roots(S, 3, 3, 3, "pp", "tri", {"neigh": 2}, calls)
         yield from roots(S, 2, 2, 5, "pp", "bulk", {}, calls)
         yield from roots(S, 2, 2, 5, "pp", "face", {"mode": "x"}, calls)
         yield from roots(S, 2, 3, 4, "pp", "face", {"mode": "x"}, calls)
@@ -591,7 +592,7 @@ def subs(tier, seed):
         Sub("C06.log", with_seed(gen_log), run_relax,
             rule=hist + "LogDynamics.relaxation on unevenly spaced timesteps, single origin, chi4 == 0; default options N=2 2D/3D T<=4 "
                         "plus fast / 1-,2-nearest cage / selections / wrapped input on N=3 T<=3"
-                        + ("" if q else "; N=3 T<=4 with 1-nearest cage, N=2 T<=5 (xu and wrapped)"),
+                        + ("" if q else "; N=3 joint T<=5 / 3D pp T<=3 with cage, N=2 T<=5 (xu and wrapped)"),
             bounds={"Tmax": 4 if q else 5}),
         Sub("C06.wrapped_eq_unwrapped", with_seed(gen_wrapped), run_relax,
             rule=hist + "particles start next to the box faces so that steps cross them; x-only (ppp=1), xu-only and both inputs of the "
